@@ -175,3 +175,66 @@ pub fn small_files(dir: &Path, suffix: &str, max_bytes: u64, limit: usize) -> Ve
     }
     v
 }
+
+/// the fixed story compiled, and saves taken along a few walks through it (seed inputs of the
+/// `load_save` target)
+pub fn save_seeds() -> Option<(String, Vec<(String, Vec<u8>)>)> {
+    use crate::rt::*;
+    let (story_json, meta) = crate::common::compile_src(FIXED_STORY).ok()?;
+    let mut seeds = vec![];
+    for walk in 0..6usize {
+        let saved = guard(|| {
+            let mut h = Host::new(&story_json, meta.clone(), &HostCfg::default()).ok()?;
+            let mut out = vec![];
+            for step in 0..(2 + walk) {
+                h.apply(&HostOp::Continue);
+                if step % 2 == 1 {
+                    h.apply(&HostOp::ChooseMod(walk + step));
+                }
+                if step == 2 {
+                    h.apply(&HostOp::SwitchFlow("fa".into()));
+                }
+                if let Ok(s) = h.story.save_state() {
+                    out.push(s);
+                }
+            }
+            Some(out)
+        });
+        if let Ok(Some(v)) = saved {
+            for s in v {
+                seeds.push((format!("save{:03}", seeds.len()), s.into_bytes()));
+            }
+        }
+    }
+    Some((story_json, seeds))
+}
+
+/// dev-fuzz TARGET RUNS: one campaign, outcome printed (used to try the targets by hand)
+pub fn dev(env: &Env, rest: &[String]) -> i32 {
+    let target = rest.first().map(|s| s.as_str()).unwrap_or("compile");
+    let runs: u64 = rest.get(1).and_then(|s| s.parse().ok()).unwrap_or(20000);
+    if let Err(e) = build(env) {
+        println!("{e}");
+        return 2;
+    }
+    let seeds = match target {
+        "compile" => small_files(&crate::common::corpus_dir(), ".ink", 6000, 200),
+        "load_story" => small_files(&crate::common::corpus_dir(), ".ink.json", 16000, 150),
+        _ => save_seeds().map(|x| x.1).unwrap_or_default(),
+    };
+    let tname: &'static str = match target {
+        "compile" => "compile",
+        "load_story" => "load_story",
+        _ => "load_save",
+    };
+    let c = Campaign { target: tname, runs, max_len: 16384, seeds };
+    let r = run(env, &c);
+    println!("{}: {} ; crashes: {}", target, r.note, r.crashes.len());
+    for b in r.crashes.iter().take(2) {
+        println!("--- input ({} bytes): {}", b.len(), String::from_utf8_lossy(b).chars().take(300).collect::<String>());
+    }
+    if !r.crashes.is_empty() {
+        println!("{}", r.stderr_tail);
+    }
+    0
+}
